@@ -31,6 +31,11 @@ def plan(tier, seed):
         for lo in (0, p // 3, p - w):
             for pat in pats[3:]:
                 Q.append(('rel', 'R3', p, 2, {'window': (lo, w), 'pattern': pat}))
+    # n = 1 at large orders: bottom windows (the property covers np <= 62)
+    for p in (34, 45, 62):
+        for pat in pats[:4]:
+            Q.append(('rel', 'R1', p, 1, {'window': (0, w), 'pattern': pat}))
+            Q.append(('rel', 'R3', p, 1, {'window': (0, w), 'pattern': pat}))
     # n = 1 and n = 3
     for p in ((1, 2, 3, 8, 12) if not thorough else (1, 2, 3, 5, 8, 12, 16, 20)):
         for rel in ('R1', 'R2', 'R3', 'R4d', 'R4c'):
@@ -79,7 +84,8 @@ def run(check, pool, Task):
                               meta={'kind': kind, 'rel': rel, 'p': p, 'n': n, **{k: list(v) for k, v in kw.items()}}))
         elif kind == 'vec':
             dt = kw.get('dtype', 'int64')
-            tasks.append(Task(f"vectorised==scalar p={p} n={n} rows=3 coordinate dtype={dt}", c07.vectorised, (p, n), {'timeout': cap, 'dtype': dt}, timeout=cap + 60,
+            rows = 3 if dt == 'int64' else 1
+            tasks.append(Task(f"vectorised==scalar p={p} n={n} rows={rows} coordinate dtype={dt}", c07.vectorised, (p, n), {'timeout': cap, 'dtype': dt, 'rows': rows}, timeout=cap + 60,
                               meta={'kind': kind, 'p': p, 'n': n, 'dtype': dt}))
         else:
             tasks.append(Task(f"endpoints p={p} n={n}", c07.endpoints, (p, n), timeout=120, meta={'kind': kind, 'p': p, 'n': n}))
